@@ -8,20 +8,20 @@ Open Scope Z_scope.
 
 Ltac Zify.zify_post_hook ::= Z.to_euclidean_division_equations.
 
-Arguments Z.div : simpl never.
-Arguments Z.modulo : simpl never.
-Arguments Z.mul : simpl never.
-Arguments Z.add : simpl never.
-Arguments Z.sub : simpl never.
-Arguments Z.pow : simpl never.
-Arguments Z.leb : simpl never.
-Arguments Z.ltb : simpl never.
-Arguments Z.eqb : simpl never.
-Arguments Z.of_nat : simpl never.
-Arguments Z.to_nat : simpl never.
-Arguments in_u : simpl never.
-Arguments utf8_valid : simpl never.
-Arguments type_ok : simpl never.
+#[local] Arguments Z.div : simpl never.
+#[local] Arguments Z.modulo : simpl never.
+#[local] Arguments Z.mul : simpl never.
+#[local] Arguments Z.add : simpl never.
+#[local] Arguments Z.sub : simpl never.
+#[local] Arguments Z.pow : simpl never.
+#[local] Arguments Z.leb : simpl never.
+#[local] Arguments Z.ltb : simpl never.
+#[local] Arguments Z.eqb : simpl never.
+#[local] Arguments Z.of_nat : simpl never.
+#[local] Arguments Z.to_nat : simpl never.
+#[local] Arguments in_u : simpl never.
+#[local] Arguments utf8_valid : simpl never.
+#[local] Arguments type_ok : simpl never.
 
 (* ------------------------------------------------------------------ integers *)
 Lemma from_le_le_bytes n : forall v, 0 <= v -> from_le (le_bytes n v) = v mod 256 ^ Z.of_nat n.
@@ -679,4 +679,28 @@ Proof.
     rewrite load_file_with_header by exact Hb.
     replace (zlen (firstn (n - 128) body) <? zlen body) with true; [reflexivity|].
     unfold zlen in *. rewrite firstn_length. lia.
+Qed.
+
+(* ------------------------------------------------------------------ witnesses *)
+Theorem expr_index_lost_refuted_l :
+  exists c f c', wf_catalog c = true /\ file_fits c = true /\ codec_class c = 2
+                 /\ save_file c = Some f /\ load_file f = Ok c'
+                 /\ find_schema c' name_root <> find_schema c name_root.
+Proof.
+  exists ex_expr_catalog.
+  destruct (save_file ex_expr_catalog) as [f|] eqn:Ef; [|vm_compute in Ef; discriminate Ef].
+  vm_compute in Ef. injection Ef as <-.
+  eexists. eexists. split; [reflexivity|]. split; [reflexivity|]. split; [reflexivity|]. split; [reflexivity|].
+  split; [vm_compute; reflexivity|]. vm_compute. discriminate.
+Qed.
+
+Theorem user_schema_refuted_l :
+  exists c f, wf_catalog c = true /\ file_fits c = true /\ codec_class c = 1
+              /\ save_file c = Some f /\ load_file f = Err.
+Proof.
+  exists ex_user_catalog.
+  destruct (save_file ex_user_catalog) as [f|] eqn:Ef; [|vm_compute in Ef; discriminate Ef].
+  vm_compute in Ef. injection Ef as <-.
+  eexists. split; [reflexivity|]. split; [reflexivity|]. split; [reflexivity|]. split; [reflexivity|].
+  vm_compute. reflexivity.
 Qed.
